@@ -255,7 +255,7 @@ func genTailCase(r *rand.Rand, idx int) *ccase {
 	case 3:
 		// the client leaves while a poll is in flight: the statement's rows are held until it has gone
 		c.DB.Mode, c.DB.ErrAt, c.DB.Shape, c.DB.Twist, c.Client = "hold", []int{0, 1}[idx/5%2], "few", "", "ws-read"
-		c.DB.Target = 1 + idx/5%2 // not the statement the session starts with: one of the polls that follow
+		c.DB.Target = -2 // not the statement the session starts with: every poll that follows
 	}
 	return c
 }
@@ -279,7 +279,7 @@ func shapeRows(shape string) int {
 // answer builds the scripted answer of statement number n (kind k) for the case.
 func (c *ccase) answer(ctx context.Context, n int, k rdcat.Kind, hold func(i int)) rdcat.Answer {
 	r := rand.New(rand.NewSource(int64(c.Idx)*1000003 + int64(n)))
-	targeted := c.DB.Target < 0 || c.DB.Target == n
+	targeted := c.DB.Target == -1 || c.DB.Target == n || c.DB.Target == -2 && n >= 1 // -2: every statement but the first
 	// complexity probes must stay small or the TraceQL planner switches strategy; keep them plain unless targeted
 	if !targeted {
 		return rdcat.OK(k, rdcat.WellShaped(k, r, 3, rdcat.FromS*1e9, rdcat.ToS*1e9))
